@@ -30,7 +30,7 @@ theorem runFrom_of_stuck {s : State} (h : stuck s = true) (σ : List Nat) : runF
 def Pc.conn : Pc → Option ConnId
   | .send c .. => some c
   | .recv c .. => some c
-  | .putCheck i _ | .putLoad i _ | .putQ i _ | .fullClose i _ | .warnLoad i _ | .discard i _ => i
+  | .putCheck i _ | .putLoad i _ | .putQ i _ | .fullClose i _ | .warn i _ | .discard i _ => i
   | .drainClose x => x
   | _ => none
 
@@ -38,7 +38,7 @@ def Pc.conn : Pc → Option ConnId
 the matching `_put_conn`) or holds an item taken by `close`'s drain loop -/
 def Pc.slots : Pc → Nat
   | .send .. | .recv .. => 1
-  | .putCheck .. | .putLoad .. | .putQ .. | .fullClose .. | .warnLoad .. | .discard .. => 1
+  | .putCheck .. | .putLoad .. | .putQ .. | .fullClose .. | .warn .. | .discard .. => 1
   | .drainClose _ => 1
   | _ => 0
 
@@ -62,12 +62,10 @@ def Pc.slots : Pc → Nat
 @[simp] theorem Pc.slots_putQ {i k} : (Pc.putQ i k).slots = 1 := rfl
 @[simp] theorem Pc.conn_fullClose {i k} : (Pc.fullClose i k).conn = i := rfl
 @[simp] theorem Pc.slots_fullClose {i k} : (Pc.fullClose i k).slots = 1 := rfl
-@[simp] theorem Pc.conn_warnLoad {i k} : (Pc.warnLoad i k).conn = i := rfl
-@[simp] theorem Pc.slots_warnLoad {i k} : (Pc.warnLoad i k).slots = 1 := rfl
+@[simp] theorem Pc.conn_warn {i k} : (Pc.warn i k).conn = i := rfl
+@[simp] theorem Pc.slots_warn {i k} : (Pc.warn i k).slots = 1 := rfl
 @[simp] theorem Pc.conn_discard {i k} : (Pc.discard i k).conn = i := rfl
 @[simp] theorem Pc.slots_discard {i k} : (Pc.discard i k).slots = 1 := rfl
-@[simp] theorem Pc.conn_closeCheck : Pc.closeCheck.conn = none := rfl
-@[simp] theorem Pc.slots_closeCheck : Pc.closeCheck.slots = 0 := rfl
 @[simp] theorem Pc.conn_closeSwap : Pc.closeSwap.conn = none := rfl
 @[simp] theorem Pc.slots_closeSwap : Pc.closeSwap.slots = 0 := rfl
 @[simp] theorem Pc.conn_drain : Pc.drain.conn = none := rfl
@@ -77,7 +75,7 @@ def Pc.slots : Pc → Nat
 
 /-- the continuation of the `_put_conn` call a program counter is in -/
 def Pc.cont : Pc → Option Cont
-  | .putCheck _ k | .putLoad _ k | .putQ _ k | .fullClose _ k | .warnLoad _ k | .discard _ k => some k
+  | .putCheck _ k | .putLoad _ k | .putQ _ k | .fullClose _ k | .warn _ k | .discard _ k => some k
   | _ => none
 
 @[simp] theorem Pc.cont_idle : Pc.idle.cont = none := rfl
@@ -90,9 +88,8 @@ def Pc.cont : Pc → Option Cont
 @[simp] theorem Pc.cont_putLoad {i k} : (Pc.putLoad i k).cont = some k := rfl
 @[simp] theorem Pc.cont_putQ {i k} : (Pc.putQ i k).cont = some k := rfl
 @[simp] theorem Pc.cont_fullClose {i k} : (Pc.fullClose i k).cont = some k := rfl
-@[simp] theorem Pc.cont_warnLoad {i k} : (Pc.warnLoad i k).cont = some k := rfl
+@[simp] theorem Pc.cont_warn {i k} : (Pc.warn i k).cont = some k := rfl
 @[simp] theorem Pc.cont_discard {i k} : (Pc.discard i k).cont = some k := rfl
-@[simp] theorem Pc.cont_closeCheck : Pc.closeCheck.cont = none := rfl
 @[simp] theorem Pc.cont_closeSwap : Pc.closeSwap.cont = none := rfl
 @[simp] theorem Pc.cont_drain : Pc.drain.cont = none := rfl
 @[simp] theorem Pc.cont_drainClose {x} : (Pc.drainClose x).cont = none := rfl
@@ -132,8 +129,8 @@ theorem Thread.mem_owned {th : Thread} {c : ConnId} :
 theorem applyCont_pc (th : Thread) (k : Cont) :
     (applyCont th k).pc = .idle ∨ ∃ f l s, (applyCont th k).pc = .getCheck f l s := by
   cases k <;> simp [applyCont]
-@[simp] theorem applyCont_pc_ne_warnLoad (th : Thread) (k i k') :
-    (applyCont th k).pc ≠ .warnLoad i k' := by
+@[simp] theorem applyCont_pc_ne_warn (th : Thread) (k i k') :
+    (applyCont th k).pc ≠ .warn i k' := by
   cases k <;> simp [applyCont]
 @[simp] theorem applyCont_pc_ne_fullClose (th : Thread) (k i k') :
     (applyCont th k).pc ≠ .fullClose i k' := by
@@ -240,7 +237,7 @@ theorem tstep_relOK (h : tstep cfg tid sh th = some (sh', th')) (hr : th.relOK) 
 
 /-- at the "pool is full" warning the discarded connection has already been closed -/
 def warnClosed (sh : Shared) (th : Thread) : Prop :=
-  ∀ c k, th.pc = .warnLoad (some c) k → c ∉ sh.openC
+  ∀ c k, th.pc = .warn (some c) k → c ∉ sh.openC
 
 theorem tstep_warnClosed (h : tstep cfg tid sh th = some (sh', th')) : warnClosed sh' th' := by
   tstep_cases th h <;> simp [warnClosed] <;> grind
@@ -307,8 +304,8 @@ theorem tstep_pc_fullClose (h : tstep cfg tid sh th = some (sh', th')) {i k}
     (hp : th'.pc = .fullClose i k) : th.pc = .putQ i k ∧ cfg.maxsize ≤ sh.queue.length := by
   tstep_cases th h <;> simp_all
 
-theorem tstep_pc_warnLoad (h : tstep cfg tid sh th = some (sh', th')) {i k}
-    (hp : th'.pc = .warnLoad i k) : th.pc = .fullClose i k ∧ cfg.block = false := by
+theorem tstep_pc_warn (h : tstep cfg tid sh th = some (sh', th')) {i k}
+    (hp : th'.pc = .warn i k) : th.pc = .fullClose i k ∧ cfg.block = false := by
   tstep_cases th h <;> simp_all
 
 /-- the result a finished `urlopen` carries in its continuation is a normal one -/
@@ -332,12 +329,11 @@ theorem failPut_results_mem {th : Thread} {i k r p} (hp : p ∈ (failPut th i k 
   cases k <;> simp [failPut] at hp <;> (have := finish_results_mem hp; simpa using this)
 
 /-- the result classes a new entry of `results` can have, with the situation that produces the
-abnormal ones -/
+abnormal one (`internalErr` is not among them: no step raises an `AttributeError`) -/
 theorem tstep_results_mem (h : tstep cfg tid sh th = some (sh', th')) (hr : recvOK sh th)
     (hk : contOK th) : ∀ p ∈ th'.results, p ∈ th.results ∨
       p.2 = .ok ∨ p.2 = .closedPool ∨ p.2 = .emptyPool ∨ p.2 = .failed ∨
-      (p.2 = .fullPool ∧ cfg.block = true ∧ ∃ i k, th.pc = .fullClose i k) ∨
-      (p.2 = .internalErr ∧ sh.poolRef = none ∧ ((∃ i k, th.pc = .warnLoad i k) ∨ th.pc = .closeSwap)) := by
+      (p.2 = .fullPool ∧ cfg.block = true ∧ ∃ i k, th.pc = .fullClose i k) := by
   intro p hp
   tstep_cases th h <;> simp [contOK, recvOK] at hr hk hp ⊢ <;>
     first
@@ -361,8 +357,8 @@ def Cont.kind : Cont → Nat
 def Pc.kind : Pc → Option Nat
   | .idle => none
   | .getCheck .. | .getLoad .. | .getQ .. | .send .. | .recv .. => some 0
-  | .putCheck _ k | .putLoad _ k | .putQ _ k | .fullClose _ k | .warnLoad _ k | .discard _ k => some k.kind
-  | .closeCheck | .closeSwap | .drain | .drainClose _ => some 2
+  | .putCheck _ k | .putLoad _ k | .putQ _ k | .fullClose _ k | .warn _ k | .discard _ k => some k.kind
+  | .closeSwap | .drain | .drainClose _ => some 2
 
 @[simp] theorem Pc.kind_idle : Pc.idle.kind = none := rfl
 @[simp] theorem Pc.kind_getCheck {f l s} : (Pc.getCheck f l s).kind = some 0 := rfl
@@ -374,9 +370,8 @@ def Pc.kind : Pc → Option Nat
 @[simp] theorem Pc.kind_putLoad {i k} : (Pc.putLoad i k).kind = some k.kind := rfl
 @[simp] theorem Pc.kind_putQ {i k} : (Pc.putQ i k).kind = some k.kind := rfl
 @[simp] theorem Pc.kind_fullClose {i k} : (Pc.fullClose i k).kind = some k.kind := rfl
-@[simp] theorem Pc.kind_warnLoad {i k} : (Pc.warnLoad i k).kind = some k.kind := rfl
+@[simp] theorem Pc.kind_warn {i k} : (Pc.warn i k).kind = some k.kind := rfl
 @[simp] theorem Pc.kind_discard {i k} : (Pc.discard i k).kind = some k.kind := rfl
-@[simp] theorem Pc.kind_closeCheck : Pc.closeCheck.kind = some 2 := rfl
 @[simp] theorem Pc.kind_closeSwap : Pc.closeSwap.kind = some 2 := rfl
 @[simp] theorem Pc.kind_drain : Pc.drain.kind = some 2 := rfl
 @[simp] theorem Pc.kind_drainClose {x} : (Pc.drainClose x).kind = some 2 := rfl
@@ -559,7 +554,7 @@ theorem tstep_noClose (h : tstep cfg tid sh th = some (sh', th')) (hn : th.noClo
 taken, a step neither creates nor destroys a slot -/
 theorem tstep_slots_eq (h : tstep cfg tid sh th = some (sh', th')) (hb : cfg.block = true)
     (hp : sh.poolRef ≠ none) (hn : th.noClose)
-    (h1 : ∀ i k, th.pc ≠ .fullClose i k ∧ th.pc ≠ .warnLoad i k ∧ th.pc ≠ .discard i k) :
+    (h1 : ∀ i k, th.pc ≠ .fullClose i k ∧ th.pc ≠ .warn i k ∧ th.pc ≠ .discard i k) :
     sh'.queue.length + th'.slots = sh.queue.length + th.slots ∧ ∀ i k, th'.pc ≠ .discard i k := by
   have h2 := hn.2
   tstep_cases th h <;> simp_all [Thread.slots] <;> grind
@@ -596,7 +591,7 @@ def Cont.stream : Cont → Bool
 /-- the `preload_content=False` flag of the request a program counter is in -/
 def Pc.stream : Pc → Bool
   | .getCheck _ _ st | .getLoad _ _ st | .getQ _ _ st | .send _ _ _ st | .recv _ _ _ _ st => st
-  | .putCheck _ k | .putLoad _ k | .putQ _ k | .fullClose _ k | .warnLoad _ k | .discard _ k => k.stream
+  | .putCheck _ k | .putLoad _ k | .putQ _ k | .fullClose _ k | .warn _ k | .discard _ k => k.stream
   | _ => false
 
 @[simp] theorem Pc.stream_idle : Pc.idle.stream = false := rfl
@@ -609,9 +604,8 @@ def Pc.stream : Pc → Bool
 @[simp] theorem Pc.stream_putLoad {i k} : (Pc.putLoad i k).stream = k.stream := rfl
 @[simp] theorem Pc.stream_putQ {i k} : (Pc.putQ i k).stream = k.stream := rfl
 @[simp] theorem Pc.stream_fullClose {i k} : (Pc.fullClose i k).stream = k.stream := rfl
-@[simp] theorem Pc.stream_warnLoad {i k} : (Pc.warnLoad i k).stream = k.stream := rfl
+@[simp] theorem Pc.stream_warn {i k} : (Pc.warn i k).stream = k.stream := rfl
 @[simp] theorem Pc.stream_discard {i k} : (Pc.discard i k).stream = k.stream := rfl
-@[simp] theorem Pc.stream_closeCheck : Pc.closeCheck.stream = false := rfl
 @[simp] theorem Pc.stream_closeSwap : Pc.closeSwap.stream = false := rfl
 @[simp] theorem Pc.stream_drain : Pc.drain.stream = false := rfl
 @[simp] theorem Pc.stream_drainClose {x} : (Pc.drainClose x).stream = false := rfl
@@ -724,9 +718,8 @@ def Pc.cost : Pc → Nat
   | .putLoad _ k => 5 + k.cost
   | .putQ _ k => 4 + k.cost
   | .fullClose _ k => 3 + k.cost
-  | .warnLoad _ k => 2 + k.cost
+  | .warn _ k => 2 + k.cost
   | .discard _ k => 1 + k.cost
-  | .closeCheck => 3
   | .closeSwap => 2
   | .drain => 1
   | .drainClose _ => 2
@@ -789,7 +782,7 @@ def Cont.last : Cont → Option Outcome
 /-- the scripted outcome of the last attempt of the request a program counter is in -/
 def Pc.last : Pc → Option Outcome
   | .getCheck _ l _ | .getLoad _ l _ | .getQ _ l _ | .send _ _ l _ | .recv _ _ _ l _ => some l
-  | .putCheck _ k | .putLoad _ k | .putQ _ k | .fullClose _ k | .warnLoad _ k | .discard _ k => k.last
+  | .putCheck _ k | .putLoad _ k | .putQ _ k | .fullClose _ k | .warn _ k | .discard _ k => k.last
   | _ => none
 
 @[simp] theorem Pc.last_idle : Pc.idle.last = none := rfl
@@ -802,9 +795,8 @@ def Pc.last : Pc → Option Outcome
 @[simp] theorem Pc.last_putLoad {i k} : (Pc.putLoad i k).last = k.last := rfl
 @[simp] theorem Pc.last_putQ {i k} : (Pc.putQ i k).last = k.last := rfl
 @[simp] theorem Pc.last_fullClose {i k} : (Pc.fullClose i k).last = k.last := rfl
-@[simp] theorem Pc.last_warnLoad {i k} : (Pc.warnLoad i k).last = k.last := rfl
+@[simp] theorem Pc.last_warn {i k} : (Pc.warn i k).last = k.last := rfl
 @[simp] theorem Pc.last_discard {i k} : (Pc.discard i k).last = k.last := rfl
-@[simp] theorem Pc.last_closeCheck : Pc.closeCheck.last = none := rfl
 @[simp] theorem Pc.last_closeSwap : Pc.closeSwap.last = none := rfl
 @[simp] theorem Pc.last_drain : Pc.drain.last = none := rfl
 @[simp] theorem Pc.last_drainClose {x} : (Pc.drainClose x).last = none := rfl
@@ -884,11 +876,11 @@ theorem scripted_of_applyCont {th : Thread} {k : Cont} {p} (hmem : p ∈ (applyC
       exact h4
 
 theorem scripted_of_failPut {th : Thread} {i k r p} (hmem : p ∈ (failPut th i k r).results)
-    (hr : r = .fullPool ∨ r = .internalErr) : p ∈ th.results ∨ Scripted cfg sh p := by
+    (hr : r = .fullPool) : p ∈ th.results ∨ Scripted cfg sh p := by
   rcases failPut_results_mem hmem with h | h
   · exact Or.inl h
   · right
-    rcases hr with rfl | rfl <;> simp [Scripted, h]
+    subst hr; simp [Scripted, h]
 
 theorem tstep_results_scripted (h : tstep cfg tid sh th = some (sh', th')) (hr : recvOK sh th)
     (hk : contOK th) (hp : progOK th) (hl : lastOK th) :
@@ -897,7 +889,7 @@ theorem tstep_results_scripted (h : tstep cfg tid sh th = some (sh', th')) (hr :
   tstep_cases th h <;>
     first
     | exact Or.inl hmem
-    | exact scripted_of_failPut hmem (by simp)
+    | exact scripted_of_failPut hmem rfl
     | (refine scripted_of_finish hmem ?_
        intro op rest hprog
        simp [progOK, lastOK, recvOK, contOK, -Bool.forall_bool, -Bool.exists_bool] at hr hk hp hl hprog
@@ -935,7 +927,7 @@ theorem disc2_false_of {b : Bool} {p : List Op} (h : disc2 b p = true) : disc2 f
 never put back) -/
 def Pc.slots2 : Pc → Nat
   | .send .. | .recv .. => 1
-  | .putCheck .. | .putLoad .. | .putQ .. | .fullClose .. | .warnLoad .. | .discard .. => 1
+  | .putCheck .. | .putLoad .. | .putQ .. | .fullClose .. | .warn .. | .discard .. => 1
   | _ => 0
 
 @[simp] theorem Pc.slots2_idle : Pc.idle.slots2 = 0 := rfl
@@ -948,9 +940,8 @@ def Pc.slots2 : Pc → Nat
 @[simp] theorem Pc.slots2_putLoad {i k} : (Pc.putLoad i k).slots2 = 1 := rfl
 @[simp] theorem Pc.slots2_putQ {i k} : (Pc.putQ i k).slots2 = 1 := rfl
 @[simp] theorem Pc.slots2_fullClose {i k} : (Pc.fullClose i k).slots2 = 1 := rfl
-@[simp] theorem Pc.slots2_warnLoad {i k} : (Pc.warnLoad i k).slots2 = 1 := rfl
+@[simp] theorem Pc.slots2_warn {i k} : (Pc.warn i k).slots2 = 1 := rfl
 @[simp] theorem Pc.slots2_discard {i k} : (Pc.discard i k).slots2 = 1 := rfl
-@[simp] theorem Pc.slots2_closeCheck : Pc.closeCheck.slots2 = 0 := rfl
 @[simp] theorem Pc.slots2_closeSwap : Pc.closeSwap.slots2 = 0 := rfl
 @[simp] theorem Pc.slots2_drain : Pc.drain.slots2 = 0 := rfl
 @[simp] theorem Pc.slots2_drainClose {x} : (Pc.drainClose x).slots2 = 0 := rfl
@@ -996,7 +987,7 @@ theorem applyCont_disc2_iff {prog pc leaked results sent} {k : Cont} {op : Op} :
   | retry f l st => simp [applyCont, disc2_mk_iff]
 
 theorem tstep_disc2 (h : tstep cfg tid sh th = some (sh', th'))
-    (hf : ∀ i k, th.pc ≠ .fullClose i k ∧ th.pc ≠ .warnLoad i k) (hd : Disc2 th) : Disc2 th' := by
+    (hf : ∀ i k, th.pc ≠ .fullClose i k ∧ th.pc ≠ .warn i k) (hd : Disc2 th) : Disc2 th' := by
   obtain ⟨hl, hidle, hrun⟩ := hd
   tstep_cases th h <;> simp at hl hidle hrun hf ⊢ <;>
     (try obtain ⟨op, rest, rfl, hd'⟩ := hrun) <;>
